@@ -37,6 +37,12 @@ def compare(out, obs):
         return 'analysis-keywords'
     if obs.get('fcsdata') not in (None, 'same'):
         return 'fcsdata-' + obs['fcsdata']
+    if 'nxwarn' in out:
+        w = obs.get('warn') or []
+        if any('additional data set' in m for m in w) != bool(out['nxwarn']):
+            return 'nextdata-warning'
+        if any('ANALYSIS segment could not be parsed' in m for m in w) != bool(out['anwarn']):
+            return 'analysis-warning'
     return None
 
 
